@@ -1,6 +1,7 @@
 (* C07 -- the compiler is total.  Pinned statements only. *)
 From Coq Require Import String List NArith Bool.
 From Sylt Require Import Lex.Regex Lex.Logos Lex.LexerProofs Total.DocPanicSites Gen.GenPanicSites Gen.GenTokens.
+From Sylt Require Import Syntax.Resolved Back.IR Back.RScope Back.TotalProofs.
 Import ListNotations.
 
 Fixpoint psites_eqb (a : list psite) (b : list (string * string * string * nat)) : bool :=
@@ -28,6 +29,14 @@ Theorem C07_token_bounds : forall (s : list N) (tk : ptoken),
   In tk (lex gen_table s) -> N.to_nat (t_cp0 tk) < N.to_nat (t_cp1 tk) <= length s.
 Proof. intros s tk H. exact (proj1 (lex_token_spec gen_table s tk H)). Qed.
 
+(* The IR lowering (intermediate.rs; its unreachable!()/unwrap() sites are Panic outcomes of the model)
+   is total on every resolved program that passes the fuelled scoping/shape check: no panic site is
+   reached and the fuel that suffices for the check suffices for the lowering. *)
+Theorem C07_lower_total : forall (fuel : nat) (r : resolved),
+  rs_resolved fuel r = true -> exists code, lower fuel r = Ok code.
+Proof. exact lower_total. Qed.
+
 Print Assumptions C07_sites_covered.
+Print Assumptions C07_lower_total.
 Print Assumptions C07_lexer_total.
 Print Assumptions C07_token_bounds.
